@@ -1,4 +1,5 @@
-(* Recorded findings for C09 (findings_proposed/C09.txt).  Each theorem exhibits an input on which the faithful model
+(* Recorded findings for C09 (KNOWN_FINDINGS.txt; tcp-attribute-error, mnr-sets-start-offset and sn-identity were repaired
+   upstream and their refutations removed).  Each theorem exhibits an input on which the faithful model
    of ttconv/stl (and, by the correspondence run, the code) departs from the specification; the matching trigger is in
    Model/StlTriggers.v and the `_partial` theorem in Properties/C09.v.  If this file stops compiling a finding is stale,
    which the check reports as such (it is not a violation). *)
@@ -28,31 +29,9 @@ Proof. exact offset23976_refuted. Qed.
 Theorem C09_region_vp_zero_refuted : exists rows tf r, region_for rows 0 tf false = Some r /\ ~ inside_safe_area (rect_of r).
 Proof. exact region_vp_zero_refuted. Qed.
 
-(* sn-identity: the same file is read into two paragraphs with subtitle number 300 and into one with 5 *)
-Theorem C09_sn_identity_refuted : exists sn file,
-  reader_model file cfg0 <> reader_gen false file cfg0 /\ paragraphs_of (reader_model file cfg0) = 2 /\
-  paragraphs_of (reader_model (witness_gsi ++ witness_tti (sn - 295) 1 2 20 0 0 [65] ++ witness_tti (sn - 295) 3 4 20 0 0 [66]) cfg0) = 1.
-Proof. exact sn_identity_refuted. Qed.
-
 (* the remaining ones are about whole files: S presents subtitles, the reader raises (or presents something else) *)
 Definition presents (file : list Z) (sc : start_cfg) (rc : rows_cfg) (n : nat) : Prop :=
   exists g rows, presentation file sc rc = Some (g, rows) /\ length (concat g) = n.
-
-(* tcp-attribute-error: program_start_tc = TCP with a TCP field that is not a number *)
-Theorem C09_tcp_refuted : exists file,
-  presents file StartTCP RowsDefault 1 /\ reader_model file (mkConfig StTCP MrNone false false None) = Err EAttribute.
-Proof.
-  exists (put 256 [48; 48; 48; 48; 88; 88; 48; 48] witness_gsi ++ witness_tti 0 1 2 20 0 0 [65]).
-  split; [eexists; eexists; split; vm_compute; reflexivity | vm_compute; reflexivity].
-Qed.
-
-(* mnr-sets-start-offset: max_row_count = MNR, open subtitles, MNR not a number *)
-Theorem C09_mnr_refuted : exists file,
-  presents file StartNone RowsMNR 1 /\ reader_model file (mkConfig StNone MrMNR false false None) = Err EAttribute.
-Proof.
-  exists (put 11 [48] (put 253 [88; 88] witness_gsi) ++ witness_tti 0 30 31 20 0 0 [65]).
-  split; [eexists; eexists; split; vm_compute; reflexivity | vm_compute; reflexivity].
-Qed.
 
 (* cumulative-before-first: an intermediate member of a cumulative set as the first block *)
 Theorem C09_cumulative_first_refuted : exists file, reader_model file cfg0 = Err EAttribute.
@@ -73,6 +52,6 @@ Proof.
 Qed.
 
 Print Assumptions C09_iso6937_refuted.  Print Assumptions C09_tf_refuted.  Print Assumptions C09_strip_refuted.
-Print Assumptions C09_offset_23976_refuted.  Print Assumptions C09_region_vp_zero_refuted.  Print Assumptions C09_sn_identity_refuted.
-Print Assumptions C09_tcp_refuted.  Print Assumptions C09_mnr_refuted.  Print Assumptions C09_cumulative_first_refuted.
+Print Assumptions C09_offset_23976_refuted.  Print Assumptions C09_region_vp_zero_refuted.
+Print Assumptions C09_cumulative_first_refuted.
 Print Assumptions C09_tnb_refuted.  Print Assumptions C09_comment_refuted.
